@@ -79,17 +79,24 @@ class HarnessPool:
         self.binary = binary
         self.n = n
 
-    def map(self, calls, timeout=120):
-        """calls: list of (op, arg, arg, ...). Returns list of ImplOut in order."""
+    def map(self, calls, timeout=120, order_seed=None):
+        """calls: list of (op, arg, arg, ...). Returns list of ImplOut in order.
+        With order_seed the calls are issued in a pseudo-random order (each worker process sees an arbitrary
+        interleaving of big/small, valid/invalid inputs), so that state carried from one call to a later one shows."""
         if not calls:
             return []
         n = max(1, min(self.n, len(calls)))
         results = [None] * len(calls)
+        order = list(range(len(calls)))
+        if order_seed is not None:
+            import random
+            random.Random(order_seed).shuffle(order)
 
         def worker(k):
             h = Harness(self.binary)
             try:
-                for i in range(k, len(calls), n):
+                for j in range(k, len(order), n):
+                    i = order[j]
                     c = calls[i]
                     results[i] = h.call(c[0], *c[1:], timeout=timeout)
             finally:
